@@ -126,7 +126,7 @@ def c19_scenarios(ctx, abstract, tier):
             steps = []
             if a["cache"]:
                 steps.append({"cwd": "proj", "argv": ["hello"], "env": {}})           # warm the cache first (only counts if it works)
-            steps.append({"cwd": cwd, "argv": [FLAG_ARGV[f] for f in sorted(a["flags"])] + (["--spokfile", "@HOME@/proj/spokfile"] if a["cwd"] == "elsewhere" else []),
+            steps.append({"cwd": cwd, "argv": [FLAG_ARGV[f] for f in sorted(a["flags"])] + (["--spokfile", "@HOME@/proj/spokfile" if len(scen) % 2 else "../proj/./spokfile"] if a["cwd"] == "elsewhere" else []),
                           "env": {}})
             scen.append({"id": len(scen) + 1, "files": files, "steps": steps})
             meta.append(a)
@@ -338,7 +338,7 @@ def c13_scenarios(tier, seed):
             add(vs, cmds_for(vs))
     # join / exec on every name
     for n in NAMESV:
-        for args in ([], ["bin"], ["out", "x.txt"], ["a", "b", "c"]):
+        for args in ([], ["bin"], ["out", "x.txt"], ["a", "b", "c"], ["a/", "b"], ["./a", "b"], ["a", "..", "b"], ["a//b", "."], ["..", "x"], ["a/./b/../c"], ["../.."]):
             vs = [mkvar(n, "join", args)]
             add(vs, cmds_for(vs))
         for ex in (("echo hi", "hi", False), ("printf '  a b \\n\\n'", "a b", False), ("echo one two | tr a-z A-Z", "ONE TWO", False), ("exit 3", "", True), ("false", "", True)):
@@ -368,7 +368,21 @@ def rec_c13(s, mt, r):
         ok = len(doc) == 1
     except Exception:
         pass
-    sc = {"cwd": os.path.join(r["home"], "proj"), "vars": [{k: v[k] for k in ("name", "kind", "val", "args", "out", "fails")} for v in mt["vars"]],
+    cwd = os.path.join(r["home"], "proj")
+
+    def cleaned(args):
+        """(directory, segments): the absolute cleaned join of cwd and args, as a base directory and the segments below it"""
+        full = os.path.normpath(os.path.join(cwd, *[a.lstrip("/") if i else a for i, a in enumerate(args)])) if args else cwd
+        if full == cwd or full.startswith(cwd + "/"):
+            rest = full[len(cwd):].strip("/")
+            return cwd, ([x for x in rest.split("/") if x])
+        return full, []
+    vs = []
+    for v in mt["vars"]:
+        o = {k: v[k] for k in ("name", "kind", "val", "args", "out", "fails")}
+        o["jdir"], o["cargs"] = cleaned(v["args"]) if v["kind"] == "join" else (cwd, [])
+        vs.append(o)
+    sc = {"cwd": cwd, "vars": vs,
           "cmds": [{"pieces": c["pieces"], "envname": c["envname"]} for c in mt["cmds"]]}
     return {"rel": "C13", "id": s["id"], "scen": sc, "steps": [step_rec(st)], "json_ok": ok, "cmds": cmds, "stderr": st["stderr"][-300:]}
 
@@ -498,7 +512,7 @@ def c12_scenarios(tier, seed):
         warm = rnd.random() < 0.6
         if warm:
             steps.append({"cwd": "proj", "argv": ["build"], "env": {}})
-        steps.append({"cwd": "/".join(cwdp), "argv": ["--clean"] + (["--spokfile", "@HOME@/proj/spokfile"] if elsewhere else []), "env": {}})
+        steps.append({"cwd": "/".join(cwdp), "argv": ["--clean"] + (["--spokfile", "@HOME@/proj/spokfile" if it % 2 else "../proj/spokfile"] if elsewhere else []), "env": {}})
         scen.append({"id": len(scen) + 1, "files": files, "steps": steps})
         meta.append({"proj": ["proj"], "cwd": cwdp, "hasClean": has_clean, "designated": des, "designatedAlt": alt, "degenerate": degenerate, "cleanMarker": "cleaned",
                      "kinds": chosen, "warm": warm})
